@@ -1,17 +1,58 @@
 import ZixModel.Model.Path
 import ZixModel.Spec.Cpp17Path
+import ZixModel.Lemmas.PathNormal
+/-! # C11 — lexically_normal returns the C++17 normal form and is idempotent
+
+Property theorems only; helper lemmas live in `ZixModel/Lemmas/PathNormal.lean`.
+Strings are NUL-free byte lists (`0 ∉ s`). -/
 namespace Zix.C11
 open Zix.Path
 
-/-- `zix_path_preferred` is the identity on POSIX (the only separator is the preferred one). -/
-theorem preferred_id_posix (s : List Nat) : preferred s = s := by
-  unfold preferred
-  induction s with
-  | nil => rfl
-  | cons c cs ih =>
-    simp only [List.map_cons, ih]
-    by_cases h : isSep c = true
-    · simp only [h, if_true]; unfold isSep at h; simp at h; rw [h]
-    · simp [h]
+/-- Normal form of a path value: no '.' element unless the whole path is '.', no 'name/..' pair,
+no '..' directly under the root directory, no separator (trailing empty element) after a trailing
+'..', and only the last element may be empty. -/
+def IsNormal (p : PathSpec.P) : Prop :=
+  (p = ⟨false, [[dot]]⟩ ∨ [dot] ∉ p.names) ∧
+  (∀ i, p.names[i + 1]? = some [dot, dot] → p.names[i]? = some [dot, dot]) ∧
+  (p.root = true → p.names.head? ≠ some [dot, dot]) ∧
+  (∀ i, p.names[i]? = some [] → i + 1 = p.names.length ∧ 0 < i ∧ p.names[i - 1]? ≠ some [dot, dot])
+
+/-- The result text has no repeated separators: parsing and printing it gives it back. -/
+def unparse (p : PathSpec.P) : List Nat :=
+  (if p.root then [sep] else []) ++ (p.names.foldl (fun acc n => if acc.1 then (false, acc.2 ++ n) else (false, acc.2 ++ [sep] ++ n)) (true, [])).2
+
+/-- `zix_path_lexically_normal` denotes the same path as the C++17 normal form of the input. -/
+theorem normal_same_path_as_cpp17 (s : List Nat) (h0 : 0 ∉ s) :
+    PathSpec.parse (normalize s) = PathSpec.normal s :=
+  Norm.parse_normalize s h0
+
+/-- The C++17 normal form is in normal form. -/
+theorem cpp17_normal_is_normal (s : List Nat) (h0 : 0 ∉ s) (hs : s ≠ []) : IsNormal (PathSpec.normal s) :=
+  Norm.normal_isNormal s h0 hs
+
+/-- Hence the result of `zix_path_lexically_normal` is in normal form, and its text has no repeated
+separators (it is exactly the printed form of its path value); a non-empty input gives a non-empty output. -/
+theorem normal_form (s : List Nat) (h0 : 0 ∉ s) (hs : s ≠ []) :
+    IsNormal (PathSpec.parse (normalize s)) ∧ normalize s = unparse (PathSpec.parse (normalize s)) ∧ normalize s ≠ [] := by
+  refine ⟨?_, Norm.normalize_unparse s h0 hs⟩
+  rw [normal_same_path_as_cpp17 s h0]
+  exact cpp17_normal_is_normal s h0 hs
+
+/-- Normalising is idempotent. -/
+theorem normal_idempotent (s : List Nat) (h0 : 0 ∉ s) : normalize (normalize s) = normalize s :=
+  Norm.normalize_idem s h0
+
+/-- A path that is already normal (printed form of a normal path value) is returned unchanged. -/
+theorem normal_fixes_normal_paths (p : PathSpec.P) (hn : IsNormal p) (hne : ∀ n ∈ p.names, 0 ∉ n ∧ sep ∉ n)
+    (hnonempty : p.root = true ∨ p.names ≠ []) :
+    normalize (unparse p) = unparse p :=
+  Norm.fixes_normal p hn hne hnonempty
+
+/-- The empty path is normal. -/
+theorem normal_empty : normalize [] = [] := by
+  rfl
+
+/-! ## non-vacuity: "//a/./b/../c/" → "/a/c/" -/
+example : normalize [47, 47, 97, 47, 46, 47, 98, 47, 46, 46, 47, 99, 47] = [47, 97, 47, 99, 47] := by decide
 
 end Zix.C11
